@@ -155,6 +155,7 @@ Proof.
     apply Nat.eqb_neq in E. assert (Hlt : r0 < nrec s) by lia. apply JF in Hlt. lia.
   - intros r0 d Hr. unfold upd. destruct (Nat.eqb r0 (nrec s)) eqn:E; simpl; [discriminate|].
     apply Nat.eqb_neq in E. apply DL. lia.
+  - split; [assumption|]. intros dd E. match goal with Hf : ds s ?x = Finished |- _ => assert (dd = x) by congruence; subst dd; rewrite Hf end. auto.
   - apply Forall_app. split; [apply Forall_cbs; intros; exact I|assumption].
   - apply Forall_tl. assumption.
   - rewrite upd_same. repeat split; try assumption. eapply f_cancel_done'; eassumption.
